@@ -70,18 +70,26 @@ def all_name_tokens(src):
 
 
 def kwlike_ids(src):
-    """tokens followed by '=' and preceded by '(' or ',' inside the same logical line
-    (worder.is_function_keyword_parameter works on text in which line breaks inside brackets are blanks)"""
+    """worder.is_function_keyword_parameter, recomputed from tokenize: the token is followed by '=' and preceded by '('
+    or ',' inside the same logical line (worder works on text in which line breaks inside brackets are blanks), and it
+    stands inside parentheses (find_parens_start_from_inside reaches a '(': since 9405717 the last name of a tuple
+    target `x, y = ...` is no keyword)"""
     toks = [t for t in tokenize.generate_tokens(io.StringIO(src).readline)]
     sig = [(i, t) for i, t in enumerate(toks) if t.type not in (_token.NL, _token.COMMENT)]
     out = set()
+    stack = []
     for k, (i, t) in enumerate(sig):
+        if t.type == _token.OP and t.string in "([{":
+            stack.append(t.string)
+        elif t.type == _token.OP and t.string in ")]}" and stack:
+            stack.pop()
         if t.type != _token.NAME or keyword.iskeyword(t.string):
             continue
         if k == 0 or k + 1 >= len(sig):
             continue
         prev, nxt = sig[k - 1][1], sig[k + 1][1]
-        if prev.type == _token.OP and prev.string in ("(", ",") and nxt.type == _token.OP and nxt.string == "=":
+        if prev.type == _token.OP and prev.string in ("(", ",") and nxt.type == _token.OP and nxt.string == "=" \
+                and stack and stack[-1] == "(":
             out.add(i)
     return out
 
@@ -641,36 +649,13 @@ def judge(o):
 
 # ============================================================================ skip set (textual situations outside the model)
 def skip_ids(src, tr, tokens, kwl):
-    """token ids the Coq model does not speak about, with the reason (structural facts from ast / tokenize only)"""
+    """token ids the Coq model does not speak about, with the reason (structural facts from ast / tokenize only).
+    Since the repairs 417bae9 / 61b2b10 / 9405717 / b5db6ac no textual situation is excluded any more: a token that
+    looks like a keyword argument without being one (impossible in valid Python now) is the only entry left."""
     out = {}
-    tree = tr.tree
-    by_pos = {(t.line, t.col): t for t in tokens}
-    ls = line_starts(src)
-    for n in ast.walk(tree):
-        if isinstance(n, ast.Call) and len(n.args) == 1 and not n.keywords and isinstance(n.args[0], ast.GeneratorExp):
-            # a generator expression that is the sole argument of a call has no parentheses of its own (ast gives
-            # it the span of the call's parentheses): the region rope computes for it starts at its first
-            # token, and Scope.in_region is strict
-            g = n.args[0]
-            between = src[ls[n.func.end_lineno - 1] + n.func.end_col_offset:ls[g.lineno - 1] + g.col_offset]
-            if between.strip() == "":
-                t = by_pos.get((g.elt.lineno, g.elt.col_offset))
-                if t is not None:
-                    out[t.id] = "genexp-first-token"
     for t in tokens:
         if t.id in kwl and t.kind not in ("KKwArg", "KParam"):
             out.setdefault(t.id, "kwlike-" + t.kind)
-    # a name spelled like the prefix of a string literal of the module: the search pattern takes the prefix for an
-    # occurrence and then misreads the text that follows the literal
-    prefixes = set()
-    for tk in tokenize.generate_tokens(io.StringIO(src).readline):
-        if tk.type == _token.STRING or tk.type == getattr(_token, "FSTRING_START", -1):
-            m = re.match(r"[A-Za-z]+", tk.string)
-            if m:
-                prefixes.add(m.group(0))
-    for t in tokens:
-        if t.name in prefixes:
-            out.setdefault(t.id, "string-prefix-as-occurrence")
     return out
 
 
@@ -738,10 +723,6 @@ def observe(src, with_rope=True, fresh=False):
     if with_rope:
         o.rope, o.stray = observe_rope(src, o.tokens, fresh=fresh)
         # offsets rope may report that are NAME tokens but not identifiers of the program (keywords): stray
-        if not src.endswith("\n") and re.match(r"\s*from\s+\S+\s+import\s+.*\w$", src.rsplit("\n", 1)[-1]):
-            for t in o.tokens:
-                if o.rope[t.id] == "EXC:IndexError":
-                    o.skip[t.id] = "from-import-at-eof"
     o.key, o.cat, o.info = oracle(src, tr, o.tokens)
     # the scoping binding without import transparency (what the Coq SPEC computes): owner scope of the name
     o.varkey = scoping_keys(o)
